@@ -146,6 +146,27 @@ Definition placeholder_pinned (c : cls) s circ : option (list letter) :=
     | _, _ => None
     end).
 
+(* everything a typing query can report about a circular record *)
+Definition observe (c : cls) (s : list letter) :=
+  (is_valid c s true, overhang_start c s true, overhang_end c s true, target c s true, placeholder c s true).
+
+(* the same tuple with the record typed once (used when evaluating large plasmids) *)
+Definition observe1 (c : cls) (s : list letter) :=
+  match typing c s true with
+  | Valid m =>
+      (true,
+       group m s (match crole c with RModule => 1 | RVector => 3 end),
+       group m s (match crole c with RModule => 3 | RVector => 1 end),
+       match cut_span m with
+       | Some (a, b) =>
+         let r := rotl (Z.of_nat a) s in
+         Some (match crole c with RModule => firstn (b - a) r | RVector => skipn (b - a) r end)
+       | None => None
+       end,
+       match group m s 1, group m s 2 with Some g1, Some g2 => Some (g1 ++ g2) | _, _ => None end)
+  | _ => (false, None, None, None, None)
+  end.
+
 (* ---------- kit tables (instances are generated into Gen/Kits.v) ------ *)
 
 Record kitcls := K {
